@@ -1873,9 +1873,7 @@ class GramStack(Stack):
             laters = deque()
             blockeds = []
             while self.txPkts:
-                again = self._serviceOneTxPkt(laters, blockeds)
-                if not again:
-                    break
+                self._serviceOneTxPkt(laters, blockeds)
             while laters:
                 self.txPkts.append(laters.popleft())
 
